@@ -495,7 +495,7 @@ func runChild(self, raceBin, id, tier string, seed int64, s ChildSpec, shard int
 	cmd.Env = append(os.Environ(), s.Env...)
 	cmd.Env = append(cmd.Env, "GOTRACEBACK=all")
 	if s.Race {
-		cmd.Env = append(cmd.Env, fmt.Sprintf("GORACE=halt_on_error=0 history_size=3 log_path=%s", filepath.Join(dir, fmt.Sprintf("race-%d", shard))))
+		cmd.Env = append(cmd.Env, fmt.Sprintf("GORACE=halt_on_error=0 exitcode=0 history_size=3 log_path=%s", filepath.Join(dir, fmt.Sprintf("race-%d", shard))))
 	}
 	cmd.SysProcAttr = &syscall.SysProcAttr{Setpgid: true}
 	o := &procOutcome{spec: s, shard: shard, dir: dir}
